@@ -94,29 +94,98 @@ start :: fn do
     __alt1(fn do a1 :: takes(__ealt2(pur, imp)) end,
            fn do a2: pu -> int = __ealt2(pur, imp) end,
            fn do a3 :: Bp { h: __ealt2(pur, imp) } end,
-           fn do a4 :: takes(__ealt2(pu -> int do ret 2 end, fn -> int do ret 2 end)) end)
+           fn do a4 :: takes(__ealt2(pu -> int do ret 2 end, fn -> int do ret 2 end)) end,
+           fn do
+               k5 :: __ealt2(pur, imp)
+               a5: pu -> int = k5
+           end,
+           fn do
+               k6 :: __ealt2(pur, imp)
+               k7 :: k6
+               a6 :: takes(k7)
+           end)
     pr(1)
 end
 '''
+# the same through a constant whose annotation says only `fn` (purity left open)
+T_PURE_TYPE_FN_ALIAS = '''
+imp :: fn -> int do ret 1 end
+pur :: pu -> int do ret 1 end
+takes :: fn q: pu -> int -> int do ret q() end
+through :: fn q: fn -> int -> fn -> int do ret q end
+start :: fn do
+    __alt1(fn do
+               k1: fn -> int : __ealt2(pur, imp)
+               a1: pu -> int = k1
+           end,
+           fn do
+               k2: fn -> int : __ealt2(pur, imp)
+               a2 :: takes(k2)
+           end,
+           fn do a3 :: takes(through(__ealt2(pur, imp))) end,
+           fn do
+               k4 :: __ealt2(pur, imp)
+               a4: pu -> int = k4
+           end)
+    pr(1)
+end
+'''
+# a pure function nested in an impure one: the enclosing function's mutable locals are mutable variables too
+XN = [("n1 :: lc", False), ("n2 :: p + lc + op", False), ("n3 :: lm", True), ("n4 :: lm + 1", True), ("lm = 2", True), ("lm += 1", True), ("n5 :: if lm > 0 do 1 else 2 end", True),
+      ("n6 :: [lm]", True), ("n7 :: (lc, lm)", True), ("n8 :: mg", True), ("n9 :: Bl { x: lm }", True), ("n10 :: lb.x", False)]
+XNALT = "__alt2(%s)" % ", ".join("fn do %s end" % s for s, _ in XN)
+NESTED = [
+    ("pu_in_fn", "inner :: pu p: int -> int do\n    XX\n    ret 1\nend\npr(inner(1))"),
+    ("pu_in_branch_of_fn", "if lm > 0 do\n    inner :: pu p: int -> int do\n        XX\n        ret 1\n    end\n    pr(inner(1))\nend"),
+    ("pu_in_loop_of_fn", "loop lm > 0 do\n    inner :: pu p: int -> int do\n        if p > 0 do\n            XX\n        end\n        ret 1\n    end\n    pr(inner(1))\n    break\nend"),
+    ("pu_in_pu_in_fn", "mid :: pu p: int -> int do\n    inner :: pu do\n        XX\n    end\n    inner()\n    ret 1\nend\npr(mid(1))"),
+    ("pu_in_fn_closure_in_fn", "mid :: fn p: int do\n    inner :: pu do\n        XX\n    end\n    inner()\nend\nmid(1)"),
+    ("pu_lambda_argument", "pr(app(pu p: int -> int do\n    XX\n    ret 1\nend))"),
+]
+T_NESTED_HEAD = '''
+mg := 1
+Bl :: blob {
+    x: int,
+}
+app :: fn q: pu int -> int -> int do ret q(1) end
+outer :: fn op: int do
+    lm := 1
+    lc :: 2
+    lb :: Bl { x: 1 }
+    NEST
+    lm = 3
+end
+start :: fn do
+    outer(1)
+end
+'''
+
+
+def nested_text(body):
+    return T_NESTED_HEAD.replace("NEST", "\n    ".join(body.replace("XX", XNALT).split("\n")))
 
 
 def spec_assign(S, I): return z3.Or([I("alt1", i) for i, (_, rej) in enumerate(TARGETS) if rej])
 def acc_assign(S, I): return z3.Or([I("alt1", i) for i, (_, rej) in enumerate(TARGETS) if not rej])
 def spec_pure(S, I): return z3.Or([I("alt2", i) for i, (_, rej) in enumerate(XS) if rej])
 def acc_pure(S, I): return z3.Or([I("alt2", i) for i, (_, rej) in enumerate(XS) if not rej])
+def spec_nested(S, I): return z3.Or([I("alt2", i) for i, (_, rej) in enumerate(XN) if rej])
+def acc_nested(S, I): return z3.Or([I("alt2", i) for i, (_, rej) in enumerate(XN) if not rej])
 def spec_pure_type(S, I): return I("ealt2", 1)
 def acc_pure_type(S, I): return I("ealt2", 0)
 
 
-SPECS = {"assign": spec_assign, "pure": spec_pure, "pure_type": spec_pure_type}
-ACCEPT_SPECS = {"assign": acc_assign, "pure": acc_pure, "pure_type": acc_pure_type}
+SPECS = {"assign": spec_assign, "pure": spec_pure, "pure_type": spec_pure_type, "nested": spec_nested}
+ACCEPT_SPECS = {"assign": acc_assign, "pure": acc_pure, "pure_type": acc_pure_type, "nested": acc_nested}
 
 
 def run(tier):
     t0 = time.time()
     files = {"other.sy": "oc :: 1\nom := 1\n"}
     jobs = [{"name": "assign_to_constant", "core": "assignment-target", "module": "checks.C04", "spec": "assign", "text": T_ASSIGN, "files": files}] + [{"name": "pure_function_body@" + n, "core": "pure-body(%s)" % n, "module": "checks.C04", "spec": "pure", "text": pure_text(body)} for n, body in NESTS] + [
-            {"name": "pure_type_given_impure", "core": "pure-type", "module": "checks.C04", "spec": "pure_type", "text": T_PURE_TYPE}]
+            {"name": "pure_type_given_impure", "core": "pure-type", "module": "checks.C04", "spec": "pure_type", "text": T_PURE_TYPE},
+            {"name": "pure_type_given_impure_through_fn_annotation", "core": "pure-type-through-fn-annotated-alias", "module": "checks.C04", "spec": "pure_type", "text": T_PURE_TYPE_FN_ALIAS}] + \
+           [{"name": "nested_pure_function@" + n, "core": "nested-pure(%s)" % n, "module": "checks.C04", "spec": "nested", "text": nested_text(b)} for n, b in NESTED]
     return ktcrun.run_check("C04", tier, jobs, t0, ktcrun.KTC_FUNCTIONS,
                             {"assignment_targets": len(TARGETS), "pure_body_constructs": len(XS), "nest_kinds": len(NESTS), "nest_depth": "<= 3 (closure in if in loop)"},
                             ktcrun.KTC_ASSUMPTIONS + ["purity of external declarations is taken as declared", "nest depth <= 3"])
